@@ -11,3 +11,5 @@ func softLineBreakDecision(d *dumper, thisLast, nextFirst rune) bool {
 	d.noModel = true
 	return false
 }
+
+func hookSoftLineBreak(style int, a, b rune) bool { return false }
